@@ -148,6 +148,92 @@ def run(ctx):
                        "fixed-width fields written for WalRecord::%s (%s) differ from those read back (%s)" % (n, w, r), eb.file,
                        sample={"variant": n, "written": w, "read": r})
 
+    # field order: the n-th fixed-width field written must be the n-th one read back, by *name* (equal widths hide a swap)
+    ctx.rule("C25.5", "per WalRecord kind, the encoder writes its fixed-width fields in the order the decoder assigns them (by field name)")
+    import functools
+
+    def ordered(b, calls):
+        def cmp(x, y):
+            if x.bb == y.bb:
+                return 0
+            if b.dominates(x.bb, y.bb):
+                return -1
+            if b.dominates(y.bb, x.bb):
+                return 1
+            return (x.line > y.line) - (x.line < y.line)
+        return sorted(calls, key=functools.cmp_to_key(cmp))
+
+    def enc_field_of(b, c):
+        """variant field the value passed to to_le_bytes was read from"""
+        l = op_local(c.args[0]) if c.args else None
+        for _ in range(6):
+            if l is None:
+                return None
+            o = b.origin(l)
+            if not o:
+                return None
+            if o[0] == "place":
+                fs = [p_[2] for p_ in o[1][1] if isinstance(p_, list) and p_[0] == "f" and WALREC in str(p_[3])]
+                if fs:
+                    return fs[-1]
+                l = o[1][0]
+                continue
+            if o[0] == "call" and o[1].args:
+                l = op_local(o[1].args[0])
+                continue
+            return None
+        return None
+
+    n5 = 0
+    if esw and dsw:
+        for vi, tb in sorted(esw[1].items()):
+            n = names[vi]
+            t_ = enc_tag.get(n)
+            if t_ is None or t_ not in dsw[1]:
+                continue
+            ereg = tables.dominated_region(eb, tb, esw[0])
+            ecalls = ordered(eb, [c for c in eb.calls() if c.bb in ereg and c.name.endswith("::to_le_bytes")])
+            eseq = [enc_field_of(eb, c) for c in ecalls]
+            dreg = tables.dominated_region(db, dsw[1][t_], dsw[0])
+            dcalls = ordered(db, [c for c in db.calls() if c.bb in dreg and (c.name.endswith("::from_le_bytes") or c.name == READ_U64)])
+            # which field of the built variant does each decoded integer feed?
+            feeds = {}
+            for bi in dreg:
+                for st in db.blocks[bi]["s"]:
+                    if st[0] == "a" and st[2][0] == "agg" and st[2][1] == "adt" and st[2][2] == WALREC and st[2][3] == n:
+                        for opnd, fname in zip(st[2][4], st[2][5]):
+                            l = op_local(opnd)
+                            for _ in range(6):
+                                if l is None:
+                                    break
+                                o = db.origin(l)
+                                if o and o[0] == "call" and (o[1].name.endswith("::from_le_bytes") or o[1].name == READ_U64):
+                                    feeds[(o[1].bb)] = fname
+                                    break
+                                if o and o[0] == "call" and o[1].args:
+                                    l = op_local(o[1].args[0])
+                                    continue
+                                if o and o[0] == "rv" and o[1][0] == "cast":
+                                    l = op_local(o[1][2])
+                                    continue
+                                break
+            dseq = [feeds.get(c.bb) for c in dcalls]
+            def collapse(seq):
+                out_ = []
+                for x in seq:
+                    if not out_ or out_[-1] != x:
+                        out_.append(x)  # a field written in a loop (list of segments) appears once
+                return out_
+            e_named = collapse([x for x in eseq if x is not None and x in set(dseq)])
+            d_named = collapse([x for x in dseq if x is not None and x in set(eseq)])
+            if len(e_named) < 2:
+                continue
+            n5 += 1
+            ctx.instance("C25.5", "WalRecord::%s writes %s reads %s" % (n, eseq, dseq))
+            ctx.oblige(e_named == d_named, "C25.5", "WalRecord::%s:field-order" % n,
+                       "WalRecord::%s is written as %s but read back as %s: the record decodes without error and addresses a different entity" % (n, e_named, d_named), eb.file)
+    ctx.floor("C25.5", "record kinds with two or more named fixed-width fields", n5, 5)
+
     # ---------------- PropertyValue
     padt = ctx.adt(PV)
     pnames = variant_names(padt)
